@@ -35,30 +35,35 @@ EtyOf(i)  == IF i <= Len(Rec) /\ IsColl(Rec[i]) THEN Rec[i].ety ELSE "u64"
 TraceInit ==
     /\ l = 1 /\ k = 1 /\ p = 1
     /\ kind = KindOf(1) /\ ety = EtyOf(1) /\ st = EmptyColl /\ alive = TRUE
-    /\ TLCSet(1, 1) /\ TLCSet(2, 1)
+    /\ TLCSet(1, 1) /\ TLCSet(3, 0)
 
-\* one operation of a collection history
+NextRecord ==
+    /\ l' = l + 1 /\ k' = 1 /\ p' = 1
+    /\ kind' = KindOf(l + 1) /\ ety' = EtyOf(l + 1) /\ st' = EmptyColl /\ alive' = TRUE
+    /\ TLCSet(1, l + 1)
+
+\* the recorded observation of operation k agrees with the model: the logged items when it succeeds; when the
+\* model reverts it, it is the last operation, the test reverted, and nothing more was logged
+OpAgrees(r, x) ==
+    IF x.ok THEN Matches(x.items, r.logs, p)
+            ELSE k = Len(r.ops) /\ r.out = "revert" /\ p = Len(r.logs) + 1
+
+\* one operation of a collection history, through the model's own action
 TrOp ==
     /\ l <= Len(Rec) /\ IsColl(Rec[l]) /\ k <= Len(Rec[l].ops)
     /\ LET r == Rec[l]
            o == r.ops[k]
            x == Expect(kind, st, o)
-       IN /\ IF x.ok THEN Matches(x.items, r.logs, p)
-                     ELSE k = Len(r.ops) /\ r.out = "revert" /\ p = Len(r.logs) + 1
+       IN /\ OpAgrees(r, x)
           /\ p' = p + Len(x.items)
           /\ Apply(o)
     /\ k' = k + 1 /\ l' = l
-    /\ TLCSet(2, k + 1)
-
-NextRecord ==
-    /\ l' = l + 1 /\ k' = 1 /\ p' = 1
-    /\ kind' = KindOf(l + 1) /\ ety' = EtyOf(l + 1) /\ st' = EmptyColl /\ alive' = TRUE
-    /\ TLCSet(1, l + 1) /\ TLCSet(2, 1)
 
 \* the history is over: a completed one returned and left no log unexplained
+EndAgrees(r) == alive => (r.out = "return" /\ p = Len(r.logs) + 1)
 TrEndColl ==
     /\ l <= Len(Rec) /\ IsColl(Rec[l]) /\ k > Len(Rec[l].ops)
-    /\ alive => (Rec[l].out = "return" /\ p = Len(Rec[l].logs) + 1)
+    /\ EndAgrees(Rec[l])
     /\ NextRecord
 
 NumAccepted(r) ==
@@ -71,9 +76,6 @@ TrNum ==
     /\ l <= Len(Rec) /\ ~IsColl(Rec[l])
     /\ NumAccepted(Rec[l])
     /\ NextRecord
-
-TraceNext == TrOp \/ TrEndColl \/ TrNum
-TraceSpec == TraceInit /\ [][TraceNext]_tvars
 
 \* what the model expected where the trace stopped matching (for the report)
 RECURSIVE StAfter(_, _, _)
@@ -92,7 +94,33 @@ Expected(i, j) ==
                     firstlog |-> LogsBefore(r.kind, r.ops, j - 1) + 1,
                     logs |-> [y \in DOMAIN x.items |-> EncItem(r.ety, x.items[y])]])
 
+\* A record that is not a behaviour of the model is reported (REJECTED: record, operation, id, what the model
+\* expected there) and skipped, so that one TLC run decides every record of the trace.
+Reject(i, j) ==
+    /\ PrintT(<<"REJECTED", i, j, Rec[i].id, Expected(i, j)>>)
+    /\ TLCSet(3, TLCGet(3) + 1)
+
+TrRejectOp ==
+    /\ l <= Len(Rec) /\ IsColl(Rec[l]) /\ k <= Len(Rec[l].ops)
+    /\ ~OpAgrees(Rec[l], Expect(kind, st, Rec[l].ops[k]))
+    /\ Reject(l, k)
+    /\ NextRecord
+TrRejectEnd ==
+    /\ l <= Len(Rec) /\ IsColl(Rec[l]) /\ k > Len(Rec[l].ops)
+    /\ ~EndAgrees(Rec[l])
+    /\ Reject(l, k)
+    /\ NextRecord
+TrRejectNum ==
+    /\ l <= Len(Rec) /\ ~IsColl(Rec[l])
+    /\ ~NumAccepted(Rec[l])
+    /\ Reject(l, 1)
+    /\ NextRecord
+
+TraceNext == TrOp \/ TrEndColl \/ TrNum \/ TrRejectOp \/ TrRejectEnd \/ TrRejectNum
+TraceSpec == TraceInit /\ [][TraceNext]_tvars
+
+\* the whole trace was consumed and no record was rejected
 Accepted ==
-    IF TLCGet(1) = Len(Rec) + 1 THEN TRUE
-    ELSE Print(<<"FIRST-UNMATCHED", TLCGet(1), TLCGet(2), Rec[TLCGet(1)].id, Expected(TLCGet(1), TLCGet(2))>>, FALSE)
+    IF TLCGet(1) = Len(Rec) + 1 /\ TLCGet(3) = 0 THEN TRUE
+    ELSE Print(<<"NOT-ACCEPTED", "consumed", TLCGet(1) - 1, "of", Len(Rec), "rejected", TLCGet(3)>>, FALSE)
 =============================================================================
